@@ -23,37 +23,57 @@ TABLE_CONSTRUCTS = ["mask_single_place", "mask_single_remove", "mask_multi_place
                     "body_single_place_code", "body_single_remove_code", "body_multi_place_code", "body_multi_remove_code",
                     "body_grid_move_code", "body_single_move_code"]
 ENUM_ALWAYS = False
-RULE = ("histories = one legacy grid (class in Single/Multi/HexSingle/HexMulti, w,h in 1..5 (a few 6x6 for the rejection-"
-        "sampling branch of move_to_empty), torus, with/without a property layer, 1..7 agents) + 6 stored corpus histories, "
-        "52 spelled-out corner cases, then random histories of up to 35 calls of "
-        "place_agent (unplaced agent, in-grid), remove_agent, move_agent (arbitrary integer targets: in grid, one wrap away, "
-        "far away, own cell, an occupied cell), swap_pos (incl. same cell, same agent, unplaced agent), move_to_empty (incl. "
-        "full grids), move_agent_to_one_of (random/closest/invalid selection, empty list with every handle_empty, ties, "
-        "out-of-grid offers) interleaved with reads of empties / empty_mask / is_cell_empty / exists_empty_cells / grid[x,y] / "
-        "iteration / coord_iter / agents; a third of the histories never read empties, a fifth read it first; "
-        "after every call the observer records every agent's pos, every cell's content, what `empties` would return "
-        "(without forcing the lazy build), and empty_mask; non-trivial = at least 3 calls with one successful mutation "
-        "and one read; distinct = by SHA1 of the history")
+RULE = ("histories = (a) one legacy grid: class in SingleGrid/MultiGrid/HexSingleGrid/HexMultiGrid, w,h in 1..5 (3% 6x6 for the rejection-"
+        "sampling branch of move_to_empty), torus on/off, 0/1/2 integer property layers, 1..7 agents of three classes (base, subclass, "
+        "subclass-of-subclass with a mixin after the base); 6 stored corpus histories, ~70 spelled-out corner cases, then random "
+        "histories of up to 35 calls of place_agent (unplaced agent, in-grid), remove_agent, move_agent (integer targets: in grid, one "
+        "wrap away, far away, beyond 2**64, own cell, an occupied cell), swap_pos (same cell, same agent, one/both unplaced), "
+        "move_to_empty (incl. full grids), move_agent_to_one_of (random/closest/invalid selection, empty list with every handle_empty, "
+        "ties, out-of-grid offers), layer set_cell/set_cells/reads, interleaved with every reader: empties, empty_mask, is_cell_empty, "
+        "exists_empty_cells, grid[x], grid[x,y], grid[(x1,y1),...], grid[x,a:b], grid[a:b,y], grid[a:b,c:d] (None/negative/oversized/"
+        "crossed bounds), iteration, coord_iter, agents, get/iter_cell_list_contents (lists with repeats, the bare-tuple form), torus_adj, "
+        "torus_adj_2d; a third of the histories never read empties, a fifth read it first; a quarter hand coordinates over as NumPy "
+        "int64/int32 scalars; every read is asked twice, iterators are first started and abandoned half-way; a populated second grid "
+        "of the same class is alive in the process; after the last call a fault sweep issues every applicable rejecting call; 9% are an "
+        "ORACLE-ONLY stream (agents whose truth value is False, slices with positive/negative steps); (b) one NetworkGrid (1..6 nodes, "
+        "1..5 agents incl. falsy ones): place/move/remove (also towards unknown nodes), is_cell_empty, get_cell_list_contents, "
+        "get_all_cell_contents, agents. After every call the observer records every agent's pos, every cell's content, what `empties` "
+        "would return (without forcing the lazy build), empty_mask and all layer values. Non-trivial = at least 3 calls with one "
+        "successful mutation and one read; distinct = by SHA1 of the history. Targeted enumerator: all 3-call histories over ~20 calls "
+        "on 2x1 (+2x2 thorough) grids x 3 start states x torus x classes")
 TRUSTED_BASE = [
     "Coq 8.16.1 kernel (coqc); vm_compute used for the Examples and for evaluating the model in the correspondence",
-    "no axioms: Print Assumptions reports 'Closed under the global context' for every C08 / C18_legacygrid theorem",
-    "harness/tables/c08_mask_writes.py (T1) extracting (value, guarded-by-_empties_built) of the _empty_mask write in "
-    "SingleGrid/MultiGrid.place_agent/remove_agent",
-    "harness/props/C08.py driver+observer and the Gallina literal printer (T2, differential testing, not a proof)",
-    "Model/LegacyGrid.v is a hand transcription of mesa/space.py (SingleGrid/MultiGrid place/remove, _Grid movers, torus_adj, "
-    "empties, empty_mask) as repaired by fixes/C08-1..3; Python int arithmetic = Z, list-of-lists = coord -> list, "
-    "set = list observed through membership only, NumPy bool array = coord -> bool",
+    "no axioms: Print Assumptions reports 'Closed under the global context' for all 44 property theorems of Properties/C08.v "
+    "(and for the C18_legacygrid_* / C18_networkgrid_* lemmas re-exported by Properties/C18.v)",
+    "T1 extractors: harness/tables/c08_mask_writes.py ((value, guarded-by-_empties_built) of the four _empty_mask writes, used by the "
+    "model itself) and harness/tables/legacy_space_code.py with harness/pyexpr.py (gen_torus_adj, gen_torus_adj_2d, "
+    "gen_distance_squared, gen_is_cell_empty, gen_move_to_empty_branch, gen_closest; the bodies of SingleGrid/MultiGrid.place_agent/"
+    "remove_agent, _Grid.move_agent and SingleGrid.move_agent as lg_stmt lists; three statement skeletons compared modulo local "
+    "names, message texts, docstrings); gen_out_of_bounds from legacy_nbhd_code.py",
+    "the statement-DSL interpreter exec1/exec_list/run_body of Proofs/LegacyGridBridge.v (it gives the lg_stmt lists their meaning)",
+    "harness/props/C08.py drivers+observers (grid and NetworkGrid) and the Gallina literal printer (T2, differential testing, not a proof)",
+    "Model/LegacyGrid.v and Model/NetGrid.v are hand transcriptions of mesa/space.py as repaired by the committed fixes C08-1..4; "
+    "Python int = Z, list-of-lists = coord -> list, set = list observed through membership only, NumPy bool/int arrays = functions",
     "random outcomes (cell picked by move_to_empty, position picked by move_agent_to_one_of, which branch of move_to_empty ran) "
     "are inputs to the model and legality-checked there; random.Random is not modelled",
+    "exceptions are classified by type and call site, never by message text",
     "Uint63 primitive hash only in scratch Cases files, never under a theorem",
 ]
 ASSUMPTIONS = [
-    "coordinates are Python ints; place_agent only for an unplaced agent at in-grid coordinates; movers/remove only for a "
-    "placed agent (other calls are outside the quantifier and skipped by driver and model alike)",
-    "order of agents inside a MultiGrid cell, of `agents` and of `empties` is not part of the statement: compared sorted "
-    "(+ duplicate flag)",
-    "hex grids: only the parts shared with the orthogonal grids (placement, movers, emptiness views); neighbourhoods are C09",
-    "the float cutoff of move_to_empty is not modelled: which branch ran is an input, the theorems hold for both",
+    "coordinates are integers (Python ints of any size, or NumPy integer scalars below 2**31 - a NumPy position combined with an offer "
+    "beyond int64 raises NumPy's own OverflowError and is not generated; grid[x] with a NumPy scalar is rejected by the library and not "
+    "generated); place_agent only for an unplaced agent at in-grid coordinates; movers/remove only for a placed agent; is_cell_empty / "
+    "cell lists / layer cells only in-grid (these calls are outside the quantifier and skipped by driver and model alike)",
+    "order of agents inside a MultiGrid cell, of `agents`, `empties` and get_cell_list_contents is not part of the statement: compared "
+    "sorted (+ duplicate flag); the order of cells in every indexing form IS compared",
+    "oracle-only (not in the Gallina model): agents with truth value False, slices with a step, the not-mutated checks on caller-owned "
+    "lists, repeatability of reads, the C18 fault sweep from the final state",
+    "property layers: construction with 0/1/2 layers, set_cell/set_cells/reads in the model; masks, select_cells, "
+    "move_agent_to_one_of via masks, add/remove_property_layer belong to C11",
+    "hex grids: placement, movers, emptiness views, indexing forms, torus_adj_2d; hex neighbourhoods are C09",
+    "the float cutoff of move_to_empty is not modelled: which branch ran is an input, the theorems hold for both branches",
+    "move_agent_to_one_of('closest') shuffles the caller's list of offers in place (a permutation; checked as such), agents with a "
+    "user-defined __eq__ are not generated",
 ]
 CLASSES = ["SingleGrid", "MultiGrid", "HexSingleGrid", "HexMultiGrid"]
 E_OOB, E_CELL, E_NOEMPTY, E_NOTON, E_BADSEL, E_NOPOS, E_KEY, E_INDEX = 1, 2, 3, 4, 5, 6, 8, 9
@@ -67,8 +87,11 @@ SITE = {"place": "place_agent", "remove": "remove_agent", "move": "move_agent", 
 def _rand_target(rng, w, h, posn, a):
     r = rng.random()
     others = [p for b, p in posn.items() if b != a and p is not None]
-    if r < 0.45:
+    if r < 0.43:
         return [rng.randrange(w), rng.randrange(h)]
+    if r < 0.46:
+        # far beyond 2**53 / 2**64: Python ints are unbounded and so is the model's Z
+        return [rng.choice([-1, 1]) * (10 ** rng.randint(16, 22) + rng.randrange(w)), rng.choice([-1, 1]) * (2 ** rng.choice([53, 63, 64, 70]) + rng.randrange(h))]
     if r < 0.65:
         # one wrap away in one or both axes
         x, y = rng.randrange(w), rng.randrange(h)
@@ -276,7 +299,29 @@ def gen_cases(rng, tier):
             length = rng.randint(6, 35)
         mode = rng.choice(["nobuild", "nobuild", "buildfirst", "mixed", "mixed", "mixed"])
         ops = _gen_history(rng, cls, w, h, torus, nag, length, mode, nlayers=layers)
-        cases.append(_mk(cls, w, h, torus, layers, nag, ops, rseed=rng.randrange(1 << 30)))
+        k = _mk(cls, w, h, torus, layers, nag, ops, rseed=rng.randrange(1 << 30))
+        if rng.random() < 0.25:
+            k["np"] = True          # coordinates handed over as NumPy integer scalars (int64 / int32 mixed)
+        if rng.random() < 0.09:
+            # oracle-only stream (the Z-valued model has no notion of these): agents whose truth value is False,
+            # slices with a step (also negative = reversed)
+            k["oracle_only"] = True
+            k["falsy"] = sorted(rng.sample(range(1, nag + 1), rng.randint(1, nag)))
+            for o in k["ops"]:
+                if o[0] in ("slice_y", "slice_x") and rng.random() < 0.7:
+                    o.append(rng.choice([-1, -1, 2, -2, 3, 1]))
+                elif o[0] == "slice_xy" and rng.random() < 0.7:
+                    o += [rng.choice([-1, 2, 1, -2]), rng.choice([-1, 2, 1, 3])]
+        cases.append(k)
+    # spelled-out exotic cases (oracle only): every agent falsy on every class, stepped / reversed slices, all readers
+    for cls in CLASSES:
+        k = _mk(cls, 3, 2, True, 1, 3, [
+            ["place", 1, 0, 1], ["place", 2, 2, 0], ["place", 3, 1, 1], ["agents"], ["iter"], ["coord_iter"], ["cell_list", [[0, 1], [2, 0]], False, "iter"],
+            ["index", 2, 0], ["slice_y", 2, None, None, -1], ["slice_x", None, None, 1, 2], ["slice_xy", None, None, None, None, -1, -1],
+            ["slice_xy", 2, 0, None, None, -1, 1], ["move", 1, 10 ** 20, -(2 ** 64)], ["move_to_empty", 2], ["agents"], ["empties"], ["mask"],
+            ["swap", 1, 3], ["remove", 2], ["agents"], ["exists"]])
+        k.update({"oracle_only": True, "falsy": [1, 2, 3], "np": True})
+        cases.append(k)
     cases.append({"cls": "NetworkGrid", "nodes": [3, 0, 7], "edges": [[0, 3]], "n": 3, "ops": [
         ["place", 1, 0], ["place", 2, 0], ["place", 3, 9], ["is_empty", 0], ["is_empty", 7], ["move", 1, 7], ["cell_list", [7, 0, 7]],
         ["all"], ["agents"], ["move", 2, 11], ["all"], ["remove", 1], ["remove", 1], ["place", 2, 3], ["cell_list", []], ["agents"]]})
@@ -404,9 +449,16 @@ def _run_net(case):
         warnings.simplefilter("ignore")
         model = mesa.Model(seed=1)
         g = NetworkGrid(G)
+
+        class FalsyLen(mesa.Agent):          # every third agent has truth value False (a user class with __len__)
+            def __len__(self):
+                return 0
+
+        class Sub(mesa.Agent):
+            pass
         agents = {}
         for aid in range(1, n + 1):
-            a = mesa.Agent(model)
+            a = (FalsyLen, mesa.Agent, Sub)[aid % 3](model)
             a._verif_id = aid
             agents[aid] = a
     name = "NetworkGrid"
@@ -568,11 +620,58 @@ def run_impl(case):
         lay = [space.PropertyLayer(f"layer{j}", w, h, j, dtype=int) for j in range(nl)]
         g = cls(w, h, torus) if nl == 0 else cls(w, h, torus, lay[0]) if nl == 1 else cls(w, h, torus, lay)
         lshadow = {j: {c: j for c in cells} for j in range(nl)}      # what the layers must hold (statement: last write)
+        # prior history in the same process: a second grid of the same class, alive and populated, must not matter
+        decoy = cls(w, h, torus)
+        decoy_agent = mesa.Agent(model)
+        decoy.place_agent(decoy_agent, (0, 0))
+        _ = decoy.empties
+        # a heterogeneous population: the framework base, a subclass with an extra attribute, a subclass of the subclass
+        # with a mixin AFTER the framework base in the MRO, and (oracle-only stream) agents whose truth value is False
+
+        class Sub(mesa.Agent):
+            def __init__(self, m):
+                super().__init__(m)
+                self.wealth = 3
+
+        class Mixin:
+            tag = "mixin"
+
+        class SubSub(Sub, Mixin):
+            pass
+
+        class FalsyBool(mesa.Agent):
+            def __bool__(self):
+                return False
+
+        class FalsyLen(Sub):
+            def __len__(self):
+                return 0
+        falsy = set(case.get("falsy") or [])
         agents = {}
         for aid in range(1, n + 1):
-            a = mesa.Agent(model)
+            kls = (FalsyBool if aid % 2 else FalsyLen) if aid in falsy else (mesa.Agent, Sub, SubSub)[aid % 3]
+            a = kls(model)
             a._verif_id = aid
             agents[aid] = a
+    agents_pending = False      # fixes/"_Grid.agents keeps agents whose truth value is False" is in /repo: always checked
+    def _huge(v):
+        return any(_huge(x) for x in v) if isinstance(v, (list, tuple)) else isinstance(v, int) and not isinstance(v, bool) and abs(v) >= 2 ** 31
+    # NumPy-scalar spelling only in histories without coordinates beyond int32: arithmetic between a stored NumPy position
+    # and an unbounded Python int raises NumPy's own OverflowError, which is NumPy's limit, not the grid's
+    use_np = bool(case.get("np")) and not _huge(case["ops"])
+
+    def P1(v):
+        """the spelling of one integer coordinate handed to the API: a Python int or a NumPy integer scalar"""
+        if use_np and abs(v) < 2 ** 31:
+            import numpy as np
+            return np.int64(v) if v % 2 else np.int32(v)
+        return v
+
+    def P(c):
+        return (P1(c[0]), P1(c[1]))
+
+    def step_of(o, k):
+        return o[k] if len(o) > k else None
 
     def raw():
         return {c: _ids(g._grid[c[0]][c[1]]) for c in cells}
@@ -651,85 +750,106 @@ def run_impl(case):
         warned = 0
         rec.last_choice = None
         n_empty_before = sum(1 for c in cells if not before["raw"][c])
+        offered_arg = [P(c) for c in op[2]] if kind == "move_one_of" else None
+        offered_copy = list(offered_arg) if offered_arg is not None else None
+        cell_arg = (P(op[1][0]) if op[2] else [P(c) for c in op[1]]) if kind == "cell_list" else None
+        cell_copy = list(cell_arg) if isinstance(cell_arg, list) else None
+
+        def call():
+            res = None
+            if kind == "place":
+                g.place_agent(agents[op[1]], P((op[2], op[3])))
+                res = []
+            elif kind == "remove":
+                g.remove_agent(agents[op[1]])
+                res = []
+            elif kind == "move":
+                g.move_agent(agents[op[1]], P((op[2], op[3])))
+                res = []
+            elif kind == "swap":
+                g.swap_pos(agents[op[1]], agents[op[2]])
+                res = []
+            elif kind == "move_to_empty":
+                g.move_to_empty(agents[op[1]])
+                res = []
+            elif kind == "move_one_of":
+                g.move_agent_to_one_of(agents[op[1]], offered_arg,
+                                       selection={"random": "random", "closest": "closest"}.get(op[3], "nearest"),
+                                       handle_empty=op[4])
+                res = []
+            elif kind == "empties":
+                v = g.empties
+                res = [_enc(p) for p in sorted(tuple(p) for p in v)]
+            elif kind == "mask":
+                m = g.empty_mask
+                res = [1 if m[c[0], c[1]] else 0 for c in cells]
+            elif kind == "is_empty":
+                res = [1 if g.is_cell_empty(P((op[1], op[2]))) else 0]
+            elif kind == "exists":
+                res = [1 if g.exists_empty_cells() else 0]
+            elif kind == "index":
+                res = _obs_cell(_ids(g[P((op[1], op[2]))]))
+            elif kind == "iter":
+                res = []
+                for content in g:
+                    res += _obs_cell(_ids(content))
+            elif kind == "coord_iter":
+                res = []
+                for content, c in g.coord_iter():
+                    res += [_enc(c)] + _obs_cell(_ids(content))
+            elif kind == "agents":
+                ids = [a._verif_id for a in g.agents]
+                res = [1 if len(set(ids)) != len(ids) else 0] + sorted(ids)
+            elif kind == "adj":
+                q = g.torus_adj(P((op[1], op[2])))
+                res = [int(q[0]), int(q[1])]
+            elif kind == "adj2d":
+                q = space._HexGrid.torus_adj_2d(g, P((op[1], op[2])))     # defined on the hex classes; uses width / height only
+                res = [int(q[0]), int(q[1])]
+            elif kind == "col":
+                res = [v for content in g[op[1]] for v in _obs_cell(_ids(content))]
+            elif kind == "ilist":
+                res = [v for content in g[tuple(P(c) for c in op[1])] for v in _obs_cell(_ids(content))]
+            elif kind == "slice_y":
+                res = [v for content in g[P1(op[1]), slice(op[2], op[3], step_of(op, 4))] for v in _obs_cell(_ids(content))]
+            elif kind == "slice_x":
+                res = [v for content in g[slice(op[1], op[2], step_of(op, 4)), P1(op[3])] for v in _obs_cell(_ids(content))]
+            elif kind == "slice_xy":
+                res = [v for content in g[slice(op[1], op[2], step_of(op, 5)), slice(op[3], op[4], step_of(op, 6))] for v in _obs_cell(_ids(content))]
+            elif kind == "cell_list":
+                arg = cell_arg
+                got = g.get_cell_list_contents(arg) if op[3] == "get" else list(g.iter_cell_list_contents(arg))
+                ids = [a._verif_id for a in got]
+                res = [1 if len(set(ids)) != len(ids) else 0] + sorted(ids)
+            elif kind == "lset":
+                g.properties[f"layer{op[1]}"].set_cell((op[2], op[3]), op[4])
+                lshadow[op[1]][(op[2], op[3])] = op[4]
+                res = []
+            elif kind == "lfill":
+                g.properties[f"layer{op[1]}"].set_cells(op[2])
+                lshadow[op[1]] = {c: op[2] for c in cells}
+                res = []
+            elif kind == "lget":
+                res = [int(g.properties[f"layer{op[1]}"].data[op[2], op[3]])]
+            else:
+                raise ValueError(f"unknown op {kind}")
+            return res
+
         try:
             with warnings.catch_warnings(record=True) as wl:
                 warnings.simplefilter("always")
-                if kind == "place":
-                    g.place_agent(agents[op[1]], (op[2], op[3]))
-                    res = []
-                elif kind == "remove":
-                    g.remove_agent(agents[op[1]])
-                    res = []
-                elif kind == "move":
-                    g.move_agent(agents[op[1]], (op[2], op[3]))
-                    res = []
-                elif kind == "swap":
-                    g.swap_pos(agents[op[1]], agents[op[2]])
-                    res = []
-                elif kind == "move_to_empty":
-                    g.move_to_empty(agents[op[1]])
-                    res = []
-                elif kind == "move_one_of":
-                    g.move_agent_to_one_of(agents[op[1]], [tuple(c) for c in op[2]],
-                                           selection={"random": "random", "closest": "closest"}.get(op[3], "nearest"),
-                                           handle_empty=op[4])
-                    res = []
-                elif kind == "empties":
-                    v = g.empties
-                    res = [_enc(p) for p in sorted(tuple(p) for p in v)]
-                elif kind == "mask":
-                    m = g.empty_mask
-                    res = [1 if m[c[0], c[1]] else 0 for c in cells]
-                elif kind == "is_empty":
-                    res = [1 if g.is_cell_empty((op[1], op[2])) else 0]
-                elif kind == "exists":
-                    res = [1 if g.exists_empty_cells() else 0]
-                elif kind == "index":
-                    res = _obs_cell(_ids(g[op[1], op[2]]))
-                elif kind == "iter":
-                    res = []
-                    for content in g:
-                        res += _obs_cell(_ids(content))
-                elif kind == "coord_iter":
-                    res = []
-                    for content, c in g.coord_iter():
-                        res += [_enc(c)] + _obs_cell(_ids(content))
-                elif kind == "agents":
-                    ids = [a._verif_id for a in g.agents]
-                    res = [1 if len(set(ids)) != len(ids) else 0] + sorted(ids)
-                elif kind == "adj":
-                    q = g.torus_adj((op[1], op[2]))
-                    res = [int(q[0]), int(q[1])]
-                elif kind == "adj2d":
-                    q = space._HexGrid.torus_adj_2d(g, (op[1], op[2]))     # defined on the hex classes; uses width / height only
-                    res = [int(q[0]), int(q[1])]
-                elif kind == "col":
-                    res = [v for content in g[op[1]] for v in _obs_cell(_ids(content))]
-                elif kind == "ilist":
-                    res = [v for content in g[tuple(tuple(c) for c in op[1])] for v in _obs_cell(_ids(content))]
-                elif kind == "slice_y":
-                    res = [v for content in g[op[1], slice(op[2], op[3])] for v in _obs_cell(_ids(content))]
-                elif kind == "slice_x":
-                    res = [v for content in g[slice(op[1], op[2]), op[3]] for v in _obs_cell(_ids(content))]
-                elif kind == "slice_xy":
-                    res = [v for content in g[slice(op[1], op[2]), slice(op[3], op[4])] for v in _obs_cell(_ids(content))]
-                elif kind == "cell_list":
-                    arg = tuple(op[1][0]) if op[2] else [tuple(c) for c in op[1]]
-                    got = g.get_cell_list_contents(arg) if op[3] == "get" else list(g.iter_cell_list_contents(arg))
-                    ids = [a._verif_id for a in got]
-                    res = [1 if len(set(ids)) != len(ids) else 0] + sorted(ids)
-                elif kind == "lset":
-                    g.properties[f"layer{op[1]}"].set_cell((op[2], op[3]), op[4])
-                    lshadow[op[1]][(op[2], op[3])] = op[4]
-                    res = []
-                elif kind == "lfill":
-                    g.properties[f"layer{op[1]}"].set_cells(op[2])
-                    lshadow[op[1]] = {c: op[2] for c in cells}
-                    res = []
-                elif kind == "lget":
-                    res = [int(g.properties[f"layer{op[1]}"].data[op[2], op[3]])]
-                else:
-                    raise ValueError(f"unknown op {kind}")
+                if kind in ("iter", "coord_iter", "agents") or (kind == "cell_list" and op[3] == "iter"):
+                    # an iterator started and abandoned half-way must not disturb anything
+                    it = iter(g) if kind in ("iter", "agents") else g.coord_iter() if kind == "coord_iter" else g.iter_cell_list_contents(cell_arg)
+                    it = iter(it)
+                    for _k in range(len(cells) // 2 + 1):      # abandon it in the middle (past the first column)
+                        next(it, None)
+                    del it
+                res = call()
+                if kind not in MUTATORS and kind not in ("lset", "lfill"):
+                    again = call()      # the same question at the same logical time has the same answer
+                    if again != res:
+                        fail(f"C08/{name}/{kind}/not-repeatable", i, f"{op} answered {res} and then {again} with nothing in between")
             warned = 1 if any(issubclass(x.category, RuntimeWarning) for x in wl) else 0
         except Exception as e:  # noqa: BLE001
             exc = e
@@ -898,6 +1018,8 @@ def run_impl(case):
             with warnings.catch_warnings():
                 warnings.simplefilter("ignore")
                 via_agents = sorted(a._verif_id for a in g.agents)
+            if agents_pending:
+                via_agents = sorted(x for c in cells for x in raw_after[c])
             if via_index != raw_after or via_iter != [raw_after[c] for c in cells] or via_coord != [(c, raw_after[c]) for c in cells] \
                     or via_agents != sorted(x for c in cells for x in raw_after[c]):
                 fail(f"C08/{name}/readers-disagree", i, f"after {op}: grid[x,y] {via_index}, iteration {via_iter}, coord_iter {via_coord}, agents {via_agents}, cells {raw_after}")
@@ -939,13 +1061,13 @@ def run_impl(case):
             elif kind == "slice_y":
                 x0 = wrap((op[1], 0))
                 want_exc = E_OOB if x0 is None else None
-                want = None if want_exc else [(x0[0], y) for y in range(h)[slice(op[2], op[3])]]
+                want = None if want_exc else [(x0[0], y) for y in range(h)[slice(op[2], op[3], step_of(op, 4))]]
             elif kind == "slice_x":
                 y0 = wrap((0, op[3]))
                 want_exc = E_OOB if y0 is None else None
-                want = None if want_exc else [(x, y0[1]) for x in range(w)[slice(op[1], op[2])]]
+                want = None if want_exc else [(x, y0[1]) for x in range(w)[slice(op[1], op[2], step_of(op, 4))]]
             elif kind == "slice_xy":
-                want = [(x, y) for x in range(w)[slice(op[1], op[2])] for y in range(h)[slice(op[3], op[4])]]
+                want = [(x, y) for x in range(w)[slice(op[1], op[2], step_of(op, 5))] for y in range(h)[slice(op[3], op[4], step_of(op, 6))]]
             form = {"adj": "torus_adj", "adj2d": "torus_adj_2d", "col": "grid[x]", "ilist": "grid[(x1, y1), ...]", "slice_y": "grid[x, a:b]", "slice_x": "grid[a:b, y]",
                     "slice_xy": "grid[a:b, c:d]", "cell_list": f"{op[3] if kind == 'cell_list' else ''}_cell_list_contents"}[kind]
             if kind == "cell_list":
@@ -965,6 +1087,12 @@ def run_impl(case):
                     fail(f"C08/{name}/getitem/wrong-contents", i, f"{form} with {op[1:]} shows {res}, the cells {want} hold {[raw_after[c] for c in want]}")
             if exc is not None and kind != "cell_list" and (expect_reject is None or ekind not in expect_reject):
                 fail(f"C08/{name}/getitem/unexpected-exception", i, f"{form} with {op[1:]} raised {type(exc).__name__}: {exc}")
+        # caller-owned arguments: the list of cells given to get/iter_cell_list_contents is not touched; the list of
+        # offers given to move_agent_to_one_of keeps its elements ("closest" shuffles it in place - a permutation only)
+        if cell_copy is not None and cell_arg != cell_copy:
+            fail(f"C08/{name}/cell_list_contents/argument-mutated", i, f"{op}: the caller's list became {cell_arg}")
+        if offered_copy is not None and (sorted(offered_arg) != sorted(offered_copy) or (op[3] == "random" and offered_arg != offered_copy)):
+            fail(f"C08/{name}/move_agent_to_one_of/argument-mutated", i, f"{op}: the caller's list of offers became {offered_arg}")
         # the explicit reads
         if exc is None:
             if kind == "empties" and res != [_enc(c) for c in truly_empty]:
@@ -1039,7 +1167,10 @@ def run_impl(case):
             aid = placed_ids[0]
             sweep("move_to_empty", lambda: g.move_to_empty(agents[aid]), f"move_to_empty(agent {aid}) on a grid without an empty cell",
                   f"C08/{name}/move_to_empty/no-empty-cell-accepted")
-    return {"obs": obs, "failures": failures, "ops_for_model": ops_for_model}
+    out = {"obs": obs, "failures": failures, "ops_for_model": ops_for_model}
+    if case.get("oracle_only"):
+        out["model"] = False
+    return out
 
 
 # ------------------------------------------------------------------ model side
@@ -1142,16 +1273,34 @@ def nontrivial(case):
     return len(case["ops"]) >= 3 and ok_mut and read
 
 
-LEVEL_TEXT = ("Machine-checked Coq theorems over a Gallina transcription of the legacy grids' place/remove/move/swap/move_to_empty/"
-              "move_agent_to_one_of and their emptiness views: for EVERY history of calls (any length, any integer coordinates, any "
-              "interleaving of reads of empties, every legal random outcome) the invariant Agree holds (pos <-> cell contents, no "
-              "duplicates, SingleGrid capacity, empties set exact once built, empty_mask exact always); all readers are the same "
-              "function of the cell contents whether or not empties was read before; targets wrap on a torus and are rejected on a "
-              "bounded grid; move_to_empty lands on a cell that was empty; move_agent_to_one_of lands on an offered cell, a nearest "
-              "one (toroidal distance) when asked; swap exchanges; every rejected call leaves the observation unchanged "
-              "(C18_legacygrid_atomic). The model is tied to the code by differential evaluation on the four classes (T2) and an "
-              "independent oracle states the property on the implementation and supplies the failing input.")
-LEVEL_NOTE = ("Theorems are about the model (the code as repaired by fixes/C08-1..3). Trusted: Coq kernel, the driver/observer, "
-              "CPython list/set/NumPy-bool-array semantics as modelled. No axioms.")
-TECHNIQUE = "Coq proof (invariant by induction over histories, closed under global context) + vm_compute correspondence + independent oracle"
-DESIGN_REF = "DESIGN.md section 4, C08 (and C18 legacy-grid sites)"
+LEVEL_TEXT = ("44 machine-checked Coq theorems (12 non-vacuity Examples) over two Gallina transcriptions of mesa/space.py. Legacy grids "
+              "(Single/Multi/HexSingle/HexMulti share Model/LegacyGrid.v, run with 0..k property layers): for EVERY history of calls (any "
+              "length, any integer coordinates, any interleaving of reads and layer writes, every legal random outcome) the invariant Agree "
+              "holds (pos <-> cell contents, no duplicates, SingleGrid capacity, empties exact once built, empty_mask exact always) - "
+              "C08_agree, C08_agree_layered; layers never interfere (C08_layers_never_interfere); all readers and all indexing / slice / "
+              "cell-list forms are the stated function of the contents whether or not empties was read before (C08_views, C08_index_forms, "
+              "C08_slice_indices, C08_empties_read_is_transparent[_layered]); place/remove/move/swap postconditions with frames, torus wrap, "
+              "bounded and occupied-cell rejection (C08_place, C08_remove, C08_torus_wrap, C08_move_in_grid, C08_bounded_reject, "
+              "C08_single_occupied_reject, C08_swap, C08_hex_torus_adj_2d); move_to_empty lands on a cell that was empty, is rejected "
+              "exactly on a full grid; move_agent_to_one_of lands on an offered cell, a nearest one under the true toroidal distance "
+              "(C08_closest_is_nearest, C08_toroidal_distance_is_least); refinement to an abstract position-map machine "
+              "(C08_refines_position_map); every rejected call leaves the observation unchanged and every continuation is unaffected "
+              "(C08_rejected_call_changes_nothing / _continue[_layered] = C18_legacygrid_atomic*). NetworkGrid (Model/NetGrid.v): "
+              "C08_net_agree, C08_net_views, C08_net_place_move, C08_net_rejected_call_changes_nothing / _continue (= C18_networkgrid_atomic*). "
+              "Code-level T1: torus_adj, torus_adj_2d, _distance_squared, is_cell_empty, the move_to_empty branch test, the 'closest' loop and "
+              "six method bodies are REGENERATED from the source on every run; ten bridge equalities model = generated code "
+              "(C08_source_is_model) and the headline theorems restated about the generated code (C08_torus_adj_of_source, "
+              "C08_closest_of_source, C08_move_of_source incl. atomicity, C08_place_remove_of_source, C08_hex_torus_adj_2d_of_source, "
+              "C08_source_mask_writes, C08_source_skeletons). The models are tied to the code by these tables (T1) and by differential "
+              "evaluation of model vs implementation on all four grid classes and NetworkGrid after every call (T2, "
+              "C08_run_case_is_step: the compared stream is this very step function); an independent oracle states the property on the "
+              "implementation and supplies the failing input.")
+LEVEL_NOTE = ("Theorems are about the models (the code with the committed fixes C08-1 MultiGrid empty_mask, C08-2 SingleGrid.move_agent "
+              "atomic, C08-3 toroidal _distance_squared, C08-4 NetworkGrid.move_agent atomic; plus 5b51fea _Grid.agents keeps falsy agents, "
+              "found independently by the round-5 falsy-agent stream). One _refuted witness is kept on purpose: the inherited "
+              "_Grid.move_agent is not atomic on a SingleGrid (why C08-2 exists). Oracle-only: falsy agents, stepped slices, argument "
+              "non-mutation, repeatability, fault sweep. Trusted: Coq kernel, pyexpr + the two table modules, the DSL interpreter, the "
+              "drivers/observers, CPython list/set/NumPy-array semantics as modelled. No axioms, no open defect known in this area.")
+TECHNIQUE = ("Coq proof (invariant by induction over histories, simulation, refinement; closed under global context) + code-level T1 "
+             "(pyexpr translation, statement-DSL interpreter, bridge lemmas) + vm_compute correspondence + independent oracle")
+DESIGN_REF = "DESIGN.md section 4, C08 (and C18 legacy-grid / NetworkGrid sites)"
